@@ -251,6 +251,10 @@ func writeGroupIni(cmd *Command, group *Group, namespace string, writer io.Write
 		case reflect.Slice:
 			kind = val.Type().Elem().Kind()
 
+			if kind == reflect.Ptr {
+				kind = val.Type().Elem().Elem().Kind()
+			}
+
 			if val.Len() == 0 {
 				writeOption(writer, oname, kind, "", "", true, option.iniQuote)
 			} else {
@@ -282,6 +286,17 @@ func writeGroupIni(cmd *Command, group *Group, namespace string, writer io.Write
 
 					writeOption(writer, oname, kind, k, v, commentOption, option.iniQuote)
 				}
+			}
+		case reflect.Ptr:
+			kind = val.Type().Elem().Kind()
+
+			if val.IsNil() {
+				// There is no value to write
+				writeOption(writer, oname, kind, "", "", true, option.iniQuote)
+			} else {
+				v, _ := convertToString(val, option.tag)
+
+				writeOption(writer, oname, kind, "", v, commentOption, option.iniQuote)
 			}
 		default:
 			v, _ := convertToString(val, option.tag)
